@@ -161,8 +161,13 @@ test_sequence = [
     (
         # ops_set
         memcpy_ops,
-        # incompatible_pack_flags
-        PassFlags.Cpu | PassFlags.MemoryOnly | PassFlags.Mac | PassFlags.Main | PassFlags.PostFusingLimited,
+        # incompatible_pack_flags (a Memcpy is executed as a DMA and cannot carry a post operation)
+        PassFlags.Cpu
+        | PassFlags.MemoryOnly
+        | PassFlags.Mac
+        | PassFlags.Main
+        | PassFlags.Post
+        | PassFlags.PostFusingLimited,
         # flags_to_set
         PassFlags.Npu | PassFlags.Memcpy | PassFlags.Main,
         # flags_to_clear
